@@ -19,7 +19,7 @@ RULE = (
     "accepted, and then ONE ill-posing edit from the listed classes is applied: unknown axis (replacing or added), data "
     "without / with two dimensions of the axis, `to` = same position / a position the axis lacks / an unknown word, unknown "
     "boundary word (scalar, for the operated axis, for another axis), non-numeric fill value (strings incl. numeric-looking ones such as '1', 'nan', '1e3', bytes, object(); scalar or in a "
-    "mapping), transform along a periodic axis, non-monotonic or repeated conservative bins, conservative transform "
+    "mapping), an unknown position word in a grid-ufunc signature (input, output or appended argument), transform along a periodic axis, non-monotonic or repeated conservative bins, conservative transform "
     "without outer, each ufunc input in turn on a wrong position, wrong number of inputs, wrong number / arity of axis "
     "entries. Every edit is tagged consulted / unconsulted (e.g. a bogus word for a shift that needs no padding). Oracle: "
     "no array may come back - any exception type is acceptance. Class = (corpus, edit, consulted, operator/shift "
@@ -32,7 +32,7 @@ OPS_EDITS = ["unknown-axis", "unknown-axis-added", "data-lacks-dim", "data-two-d
              "boundary-unknown-scalar", "boundary-unknown-operated", "boundary-unknown-other", "fill-nonnumeric-scalar", "fill-nonnumeric-mapping",
              "fill-object"]
 UFUNC_EDITS = ["misplaced-input", "extra-input", "missing-input", "axis-entries-extra", "axis-entries-missing", "axis-arity", "unknown-axis",
-               "boundary-unknown-scalar", "position-lacking"]
+               "boundary-unknown-scalar", "position-lacking", "signature-unknown-position-word", "signature-unknown-position-word"]
 TRANSFORM_EDITS = ["periodic-axis", "nonmonotonic-bins", "repeated-bins", "no-outer", "unknown-axis"]
 METRIC_EDITS = ["unknown-axis", "data-lacks-dim", "data-two-dims", "data-two-dims", "no-metric"]
 
@@ -272,6 +272,21 @@ def run_ufunc(ctx, desc):
         ins2 = [[list(x) for x in arg] for arg in ins]
         ins2[k][0][1] = lacking[0]
         sig2 = c11.render(ins2, outs)
+    elif edit == "signature-unknown-position-word":
+        # an unknown position word anywhere in the signature text: in an input, in an output, or in an argument appended
+        # after an otherwise complete signature
+        word = ["middle", "centre", "Left", "lefty", "edge"][pick % 5]
+        where = (pick // 5) % 3
+        if where == 0:
+            ins2 = [[list(x) for x in arg] for arg in ins]
+            ins2[k][0][1] = word
+            sig2 = c11.render(ins2, outs)
+        elif where == 1 and outs and outs[-1]:
+            outs2 = [[list(x) for x in arg] for arg in outs]
+            outs2[-1][-1][1] = word
+            sig2 = c11.render(ins, outs2)
+        else:
+            sig2 = sig + f",({ins[0][0][0]}:{word})"
     res = call_outcome(lambda: invoke(args2, axis2, sig2, **kw))
     judge(ctx, desc, ("ufunc", edit, consulted, len(ins), b["mode"]), res, f"grid ufunc {sig2} axis={axis2} n_args={len(args2)} {kw} [{edit}]", edit, consulted)
 
